@@ -154,7 +154,7 @@ def processLine (a : AccSt) (toks : List String) : Except String AccSt :=
       | none => .error "bad inv"
       | some act =>
         match step a.alg a.maxCells t a.g (getL a t) act with
-        | none => .error s!"invocation {rest} not enabled (model thread at {pcName (getL a t)}, active={a.g.active}, maint={a.g.maint})"
+        | none => .error s!"invocation {rest} not enabled (model thread at {pcName (getL a t)}, active={a.g.actv}, maint={a.g.maint})"
         | some (g', l', obs) => .ok (applyObs (setL { a with g := g' } t l') t obs)
   | ["ev", t, _layer, kind, addr, xa, xb, xr, len, cap, ok] =>
     match t.toNat?, hexVal? addr, hexVal? xa, hexVal? xb, hexVal? xr, hexVal? len, hexVal? cap with
@@ -188,7 +188,7 @@ def processLine (a : AccSt) (toks : List String) : Except String AccSt :=
             let w := if kind == "rand" then xr else 0
             let ncell0 := a3.g.ncell
             let narr0 := a3.g.narr
-            let (g', l', obs) := stepRun a3.alg a3.maxCells a3.g pc v w
+            let (g', l', obs) := stepRun a3.alg a3.maxCells t a3.g pc v w
             -- materialisation of private objects
             let a4 := if pc == .t3 then
                 { a3 with arrBase := (match a3.pendArr.lookup t with | some p => [(0, p)] | none => []),
